@@ -48,6 +48,9 @@ T = {
     "C13": ("sanitizers and kernel-boundary tap: ASan+UBSan build in the real interpreter; TSan build on a pthread mini-OpenMP runtime (thread counts, permuted thread ids, yields); guard-page re-homing of every array argument in the production build; differential re-execution of every captured call with 1..16 threads and on the serial build; the other checks' reference oracles under the serial build; argument well-formedness against the C element types parsed from c/_phonopy.cpp",
             "Held on the executions produced: all exported kernels reached through the public classes with >=3 distinct shape tuples each, 0 sanitizer reports, bitwise thread-count independence, serial/OpenMP agreement, reference oracles silent. Evidence lists kernel call counts, shapes, regions that really ran multi-threaded.",
             "shim instead of nanobind for the glue; numpy/CPython uninstrumented; red zones + guard pages do not see intra-array overflows; TSan sees only schedules that happened", "3/C13"),
+    "C14": ("relational monitor over access paths x option product on the OpenMP and the serial build: reported (D, w, e) must satisfy D e = w^2 e; run_qpoints 2^3 options, band paths (with/without connection, NAC direction at Gamma), Mesh, IterMesh, dynamical_matrix.run, get_frequencies*; yaml/hdf5 parsed back at the printed precision measured from the text",
+            "Held on the executions produced: 14 zoo crystals x supercells x NAC none/Wang/Gonze-Lee x full/compact x both builds (both arms of QpointsPhonon._run are executed and counted).",
+            "eigenvalues (not frequencies) compared; eigenvectors only through residuals/orthonormality; hdf5 must be bit-identical", "3/C14"),
 }
 
 NA_REASON = "check not built yet in this round (runtime-monitoring driver pending); no claim is made"
